@@ -829,6 +829,10 @@ func runScenario(w *World, prop string, idx int) {
 	case "C09":
 		RunElection(w, idx)
 	default:
+		if (prop == "C02" || prop == "C04") && idx%10 == 9 {
+			RunConcurrent(w, idx)
+			return
+		}
 		RunIO(w, idx)
 	}
 }
